@@ -2,7 +2,7 @@
   C17 - OTLP metrics survive conversion to STEF and back.
   Property theorems only (helper lemmas: Stef/Proofs/Otlp*.lean). The model is Stef/Otlp/{Value,Metrics}.lean.
 -/
-import Stef.Proofs.OtlpSorted
+import Stef.Proofs.OtlpTyped
 
 namespace Stef.Props.C17
 open Stef.Otlp
@@ -70,39 +70,21 @@ theorem record_count (m : Metrics) (recs : List SRecord) (h : otlpToStefUnsorted
     have := writeResources_len m.rms {} st hst
     simp [flatten_length, this]
 
-/-- For the sorting converter the same statement is FALSE as written: sortedbymetric's
-    covertNumberDataPoints skips (`continue`) number points without a value. Witness: one gauge with
-    one value-less point - the conversion succeeds and writes no record. -/
+/-- The sorting converter too writes exactly one record per data point - for every batch, no side
+    condition (since repo commit 42fcfbf; before it covertNumberDataPoints skipped number points
+    without a value and the statement was false). -/
+theorem record_count_sorted (m : Metrics) (recs : List SRecord) (h : otlpToStefSorted m = .ok recs) :
+    recs.length = (flatten m).length :=
+  otlpToStefSorted_count m recs h
+
+/-- a gauge with one value-less point: one record from either converter -/
 def valuelessWitness : Metrics :=
   { rms := [{ scopes := [{ metrics := [{ name := [103], type := .gauge, points := [{ ts := 1 }] }] }] }] }
 
-theorem record_count_sorted_false :
-    ¬ ∀ (m : Metrics) (recs : List SRecord), otlpToStefSorted m = .ok recs → recs.length = (flatten m).length := by
-  intro h
-  have := h valuelessWitness [] rfl
-  revert this
-  decide
-
-/-- What the sorting converter does write, for every batch (no side condition): one record per data
-    point except number points without a value (`keptCount`). -/
-theorem record_count_sorted (m : Metrics) (recs : List SRecord) (h : otlpToStefSorted m = .ok recs) :
-    recs.length = keptCount m :=
-  otlpToStefSorted_count m recs h
-
-/-- Sorting converter, for every batch whose number points all have a value (flagged or not):
-    one record per data point. -/
-theorem record_count_sorted_partial (m : Metrics) (recs : List SRecord) (h : otlpToStefSorted m = .ok recs)
-    (hv : ∀ r ∈ m.rms, ∀ s ∈ r.scopes, ∀ mt ∈ s.metrics, ∀ p ∈ mt.points, keptPoint mt.type p = true) :
-    recs.length = (flatten m).length := by
-  rw [otlpToStefSorted_count m recs h, keptCount_all m hv]
+example : (otlpToStefSorted valuelessWitness).toOption.map List.length = some 1 ∧
+    (otlpToStefUnsorted valuelessWitness).toOption.map List.length = some 1 := by decide
 
 /-! ### round trip, unsorted converters -/
-
-/-- Round trip, full statement: converting to STEF and back yields the same data points. Still FALSE
-    on HEAD; one of the recorded witnesses (the others are in known_findings.txt): a summary point
-    flagged NoRecordedValue comes back unflagged. -/
-def summaryNrvWitness : Metrics :=
-  { rms := [{ scopes := [{ metrics := [{ name := [115], type := .summary, points := [{ ts := 1, flags := 1 }] }] }] }] }
 
 /-- what both directions give for a batch, as data points (`none` when a conversion fails) -/
 def roundTripUnsorted (m : Metrics) : Option (List DataPoint) :=
@@ -113,20 +95,21 @@ def roundTripUnsorted (m : Metrics) : Option (List DataPoint) :=
     | .error _ => none
     | .ok m' => some (flatten m')
 
+/-- Round trip, full statement: converting to STEF and back yields the same data points. Still FALSE
+    on HEAD; the recorded witness (the others are in known_findings.txt): a number point without a
+    value and without the NoRecordedValue flag comes back flagged (STEF has one encoding,
+    PointValueTypeNone, for both). -/
 theorem roundtrip_unsorted_false : ¬ ∀ m : Metrics, roundTripUnsorted m = some (flatten m) := by
   intro h
-  have := h summaryNrvWitness
+  have := h valuelessWitness
   revert this
   decide
 
-/-- a second witness: a number point without a value and without flag comes back flagged -/
-theorem roundtrip_unsorted_false_valueless : roundTripUnsorted valuelessWitness ≠ some (flatten valuelessWitness) := by
-  decide
-
 /-- Round trip through the unsorted converters for every clean batch (`Metrics.clean`: distinct
-    attribute keys, number points with a value, no
-    exemplars on flagged points, unflagged summaries, histogram buckets = bounds + 1, valid
-    temporality, 32-bit scale/offsets): both conversions succeed and the data points come back in
+    attribute keys, number points with a value or flagged NoRecordedValue, histogram buckets =
+    bounds + 1 unless flagged, valid temporality, 32-bit scale/offsets, 16/8-byte exemplar ids;
+    flagged summaries and exemplars on flagged points are covered since repo commit ede8608): both
+    conversions succeed and the data points come back in
     the same order with the same resource, scope, metric identity and metadata, attributes,
     timestamps, flags, value or no-recorded-value marker, buckets and bounds, optional sum/min/max,
     quantiles and exemplars - the only difference being that exemplar filtered attributes come back
@@ -145,12 +128,70 @@ theorem reader_returns_record_points (recs : List SRecord) (ds : List DataPoint)
     (h : recs.map pointOfRecord = ds.map Except.ok) : ∃ m, stefToOtlpUnsorted recs = .ok m ∧ flatten m = ds :=
   stefToOtlpUnsorted_flatten recs ds h
 
+/-! ### round trip, sorting writer -/
+
+/-- Sorting writer, every clean batch whose attribute values and histogram bounds are 64-bit
+    patterns (`Metrics.b64`: what pdata can hold; on such keys the generated Cmp functions of the
+    sorted trees decide equality): `OtlpToStefSorted.Convert` succeeds and reading its records one
+    by one gives a PERMUTATION of the batch's data points - same resource, scope, metric identity
+    and metadata, attributes, timestamps, flags, value or no-recorded-value marker, buckets, bounds,
+    optional fields, quantiles and exemplars - with every attribute list in key order
+    (`DataPoint.sortAttrs`; the sorting converter goes through MapSorted everywhere). -/
+theorem roundtrip_sorted_records (m : Metrics) (hc : m.clean = true) (hb : m.b64 = true) :
+    ∃ recs, otlpToStefSorted m = .ok recs ∧
+      (recs.map pointOfRecord).Perm ((flatten m).map fun d => .ok d.sortAttrs) :=
+  otlpToStefSorted_spec m hc hb
+
+/-- Round trip sorting writer -> order-preserving reader: both conversions succeed and the batch
+    that comes back has the same multiset of data points, attribute lists in key order. -/
+theorem roundtrip_sorted (m : Metrics) (hc : m.clean = true) (hb : m.b64 = true) :
+    ∃ recs m', otlpToStefSorted m = .ok recs ∧ stefToOtlpUnsorted recs = .ok m' ∧
+      (flatten m').Perm ((flatten m).map DataPoint.sortAttrs) := by
+  obtain ⟨recs, h1, h2⟩ := otlpToStefSorted_spec m hc hb
+  have h2' : (recs.map pointOfRecord).Perm (((flatten m).map DataPoint.sortAttrs).map Except.ok) := by
+    simpa [okSorted, List.map_map, Function.comp_def] using h2
+  obtain ⟨ds, e, hp⟩ := perm_map_inv Except.ok _ _ h2'
+  obtain ⟨m', h3, h4⟩ := stefToOtlpUnsorted_flatten recs ds e
+  exact ⟨recs, m', h1, h3, by rw [h4]; exact hp⟩
+
+/-- The sorting READER (sortedbyresource) returns the records' points: whatever a stream of records
+    is, if each record reads as a data point and is typed (`RecTyped`: resource, scope, metric and
+    attribute keys are 64-bit patterns, the exemplar array is backed), `Convert` succeeds and returns
+    a batch with exactly those points, as a multiset. -/
+theorem sorted_reader_returns_record_points (recs : List SRecord) (ds : List DataPoint)
+    (h : recs.map pointOfRecord = ds.map Except.ok) (hty : ∀ r ∈ recs, RecTyped r) :
+    ∃ m, stefToOtlpSorted recs = .ok m ∧ (flatten m).Perm ds :=
+  stefToOtlpSorted_flatten recs ds h hty
+
+/-- Round trip order-preserving writer -> sorting reader, every clean 64-bit typed batch: the same
+    multiset of data points comes back (exemplar filtered attributes in key order). -/
+theorem roundtrip_sorted_reader (m : Metrics) (hc : m.clean = true) (hb : m.b64 = true) :
+    ∃ recs m', otlpToStefUnsorted m = .ok recs ∧ stefToOtlpSorted recs = .ok m' ∧
+      (flatten m').Perm ((flatten m).map DataPoint.sortExAttrs) := by
+  obtain ⟨recs, h1, h2⟩ := otlpToStefUnsorted_spec m hc
+  obtain ⟨m', h3, h4⟩ := stefToOtlpSorted_flatten recs ((flatten m).map DataPoint.sortExAttrs)
+    (by rw [h2]; simp [okBack]) (otlpToStefUnsorted_typed m recs hc hb h1)
+  exact ⟨recs, m', h1, h3, h4⟩
+
+/-- Round trip sorting writer -> sorting reader, every clean 64-bit typed batch: the same multiset
+    of data points comes back (attribute lists in key order). -/
+theorem roundtrip_sorted_both (m : Metrics) (hc : m.clean = true) (hb : m.b64 = true) :
+    ∃ recs m', otlpToStefSorted m = .ok recs ∧ stefToOtlpSorted recs = .ok m' ∧
+      (flatten m').Perm ((flatten m).map DataPoint.sortAttrs) := by
+  obtain ⟨recs, h1, h2, hty⟩ := otlpToStefSorted_full m hc hb
+  have h2' : (recs.map pointOfRecord).Perm (((flatten m).map DataPoint.sortAttrs).map Except.ok) := by
+    simpa [okSorted, List.map_map, Function.comp_def] using h2
+  obtain ⟨ds, e, hp⟩ := perm_map_inv Except.ok _ _ h2'
+  obtain ⟨m', h3, h4⟩ := stefToOtlpSorted_flatten recs ds e hty
+  exact ⟨recs, m', h1, h3, h4.trans hp⟩
+
 /-! ### non-vacuity of the round trip -/
 
 /-- two resources (the first repeated), two scopes, all five metric types, an interleaved metric
     identity, a flagged point, per-point bounds (one differing from the previous point's only in the
     sign of a zero), exemplars with unsorted filtered attributes, nested array and a nested map of three
-    entries, NaN, infinity and -0.0 values (the latter written over +0.0). -/
+    entries, NaN, infinity and -0.0 values (the latter written over +0.0), a flagged summary point,
+    a flagged point with an exemplar and a flagged number point without a value. -/
 def sample : Metrics :=
   let id16 := List.replicate 16 3
   let id8 := List.replicate 8 4
@@ -161,7 +202,8 @@ def sample : Metrics :=
   let g : Metric := { name := [103], type := .gauge, points := [
       { ts := 1, vt := 1, v := 7, attrs := a1, exemplars := [ex1] },
       { ts := 2, vt := 2, v := 0x7ff8000000000001 },
-      { ts := 3, vt := 1, v := 9, flags := 1 }] }
+      { ts := 3, vt := 1, v := 9, flags := 1, exemplars := [ex1] },
+      { ts := 4, flags := 1 }] }
   let su : Metric := { name := [115], type := .sum, temp := 2, mono := true, points := [{ ts := 4, vt := 2, v := 0 }, { ts := 5, vt := 2, v := negZero }] }
   let h : Metric := { name := [104], type := .hist, temp := 1, points := [
       { ts := 5, count := 3, hasSum := true, sum := 0x3ff0000000000000, buckets := [1, 2], bounds := [0x4000000000000000] },
@@ -172,16 +214,17 @@ def sample : Metrics :=
       { ts := 7, count := 2, scale := 0xffffffff, posOff := 1, pos := [1, 1], negOff := 0xfffffffe, neg := [2],
         hasMin := true, min := 0xfff0000000000000 }] }
   let q : Metric := { name := [113], type := .summary, points := [
-      { ts := 8, count := 2, sum := 0x4008000000000000, quantiles := [(0, 1), (0x3ff0000000000000, 2)] }] }
+      { ts := 8, count := 2, sum := 0x4008000000000000, quantiles := [(0, 1), (0x3ff0000000000000, 2)] },
+      { ts := 9, flags := 1 }] }
   let res : ResourceMetrics := { url := [117], dropped := 1, attrs := .cons [107] (.str [118]) .nil }
   { rms := [{ res with scopes := [{ name := [115], metrics := [g, su, g] }, { name := [116], metrics := [h, q] }] },
             { url := [119], scopes := [{ metrics := [e] }] },
             { res with scopes := [{ name := [115], metrics := [su] }] }] }
 
-example : sample.clean = true ∧ (flatten sample).length = 16 := by decide
+example : sample.clean = true ∧ sample.b64 = true ∧ (flatten sample).length = 19 := by decide
 
 example : ∃ recs m', otlpToStefUnsorted sample = .ok recs ∧ stefToOtlpUnsorted recs = .ok m' ∧
-    flatten m' = (flatten sample).map DataPoint.sortExAttrs ∧ recs.length = 16 := by
+    flatten m' = (flatten sample).map DataPoint.sortExAttrs ∧ recs.length = 19 := by
   obtain ⟨recs, m', h1, h2, h3⟩ := roundtrip_unsorted_partial sample (by decide)
   exact ⟨recs, m', h1, h2, h3, by rw [record_count sample recs h1]; decide⟩
 
@@ -189,9 +232,21 @@ example : ∃ recs m', otlpToStefUnsorted sample = .ok recs ∧ stefToOtlpUnsort
 example : (flatten sample).map DataPoint.sortExAttrs ≠ flatten sample := by decide
 
 /-- the sorting converter on `sample`: it returns, reorders, and writes one record per point; the
-    hypothesis of `record_count_sorted_partial` holds for it -/
+    hypotheses of `roundtrip_sorted` hold for it and its conclusion is not an identity either -/
 example : (otlpToStefSorted sample).toOption.map List.length = some (flatten sample).length ∧
     (otlpToStefSorted sample).toOption ≠ (otlpToStefUnsorted sample).toOption ∧
-    keptCount sample = (flatten sample).length := by decide
+    (flatten sample).map DataPoint.sortAttrs ≠ (flatten sample).map DataPoint.sortExAttrs := by decide
+
+example : ∃ recs m', otlpToStefSorted sample = .ok recs ∧ stefToOtlpUnsorted recs = .ok m' ∧
+    (flatten m').Perm ((flatten sample).map DataPoint.sortAttrs) :=
+  roundtrip_sorted sample (by decide) (by decide)
+
+example : ∃ recs m', otlpToStefSorted sample = .ok recs ∧ stefToOtlpSorted recs = .ok m' ∧
+    (flatten m').Perm ((flatten sample).map DataPoint.sortAttrs) :=
+  roundtrip_sorted_both sample (by decide) (by decide)
+
+/-- the sorting reader really regroups `sample`: what it returns is not in document order -/
+example : ((otlpToStefUnsorted sample).toOption.bind fun recs => (stefToOtlpSorted recs).toOption.map flatten)
+    ≠ some ((flatten sample).map DataPoint.sortExAttrs) := by decide
 
 end Stef.Props.C17
